@@ -620,6 +620,41 @@ Proof.
   f_equal. apply (is_max_unique (e_values (enum_run ops))); [apply max_of_is_max | exact Hm].
 Qed.
 
+(* enum decoding on the enums that histories can build: the hypotheses of decode_enum_hit / _miss
+   (indexes unique, in the Go int range) hold in every reachable enum *)
+Lemma enum_values_in_range ops : Forall op_in_range ops ->
+  Forall (fun p => - two63 <= snd p < two63) (e_values (enum_run ops)).
+Proof.
+  unfold enum_run. assert (H0 : Forall (fun p : Z * Z => - two63 <= snd p < two63) (e_values enum_new)) by constructor.
+  revert H0. generalize enum_new. induction ops as [|o tl IH]; intros e He Hops; cbn [fold_left]; [exact He|].
+  inversion Hops; subst. apply IH; [|assumption].
+  destruct o as [nm idx | nm | m | nm idx | ]; cbn [enum_step].
+  - unfold enum_add. destruct (has_index (e_values e) idx || has_name (e_values e) nm); [exact He|].
+    cbn [e_values]. apply Forall_app. split; [exact He|]. constructor; [|constructor]. cbn in *. lia.
+  - unfold enum_remove. destruct (find _ _) as [[? ?]|]; [|exact He]. cbn [e_values].
+    apply Forall_forall. intros p Hp. apply filter_In in Hp. rewrite Forall_forall in He. apply He. tauto.
+  - exact He.
+  - unfold enum_update. destruct (find _ _) as [[? old]|]; [|exact He].
+    destruct (old =? idx); [exact He|]. destruct (has_index (e_values e) idx); [exact He|].
+    cbn [e_values]. apply Forall_forall. intros p Hp. apply in_map_iff in Hp. destruct Hp as [q [E Hq]].
+    rewrite Forall_forall in He. specialize (He q Hq). unfold set_index in E.
+    destruct (fst q =? nm); subst p; [cbn in *; lia | exact He].
+  - constructor.
+Qed.
+
+Theorem decode_enum_reachable ops raw : Forall op_in_range ops -> 0 <= raw < two64 ->
+  let vs := e_values (enum_run ops) in
+  NoDup (map snd vs) /\ NoDup (map fst vs) /\
+  (forall nm, In (nm, raw) vs -> decode_enum vs raw = Some nm) /\
+  (~ In raw (map snd vs) -> decode_enum vs raw = None).
+Proof.
+  intros Hops Hr vs. destruct (enum_inv_reachable ops) as [Hn [Hi _]]. unfold names, indexes in *. fold vs in Hn, Hi.
+  pose proof (enum_values_in_range ops Hops) as Hrg. fold vs in Hrg.
+  split; [exact Hi|]. split; [exact Hn|]. split.
+  - intros nm Hin. apply decode_enum_hit; assumption.
+  - intros Hnot. apply decode_enum_miss; assumption.
+Qed.
+
 (* ------------------------------------------------------------------ multiplexer selector *)
 Theorem mux_selector_spec c : 1 <= c <= two63 -> mux_selector_size c = bit_width (c - 1).
 Proof.
